@@ -22,7 +22,7 @@ def features(sql, dialect):
     f = {"mixed_comma_join_names": set(), "select_subquery_tables": set(), "lateral_view_aliases": set(),
          "rename_old": set(), "rename_new": set(), "having_subquery_tables": set(), "parsed": False,
          "stmt_types": [], "same_alias_subqueries": set(), "case_subquery": False, "n_rename_pairs": 0,
-         "case_subquery_aliases": set(), "subquery_aliases": set(), "select_has_subquery": False, "same_text_subqueries": False, "nested_group_first_aliases": set()}
+         "case_subquery_aliases": set(), "subquery_aliases": set(), "select_has_subquery": False, "same_text_subqueries": False, "nested_group_first_aliases": set(), "cte_paren_setop_names": set()}
     try:
         tree = Linter(config=FluffConfig(overrides={"dialect": d})).parse_string(sql).tree
     except Exception:
@@ -93,6 +93,11 @@ def features(sql, dialect):
         ids = [s for s in cte.segments if s.type in ("identifier", "naked_identifier", "quoted_identifier")]
         if ids:
             aliases.append(_esc(ids[0].raw))
+            # WITH w AS ((select ...) union (select ...)): body is a set operation whose branches are parenthesised
+            for br in cte.get_children("bracketed"):
+                for se in br.get_children("set_expression"):
+                    if se.get_children("bracketed"):
+                        f["cte_paren_setop_names"].add(_esc(ids[0].raw))
     # a JOIN (b x JOIN c ...) ON ...: alias of the first relation inside a parenthesised join group (KF-36)
     for br in tree.recursive_crawl("bracketed"):
         if br.get_child("table_expression") is not None and br.get_children("join_clause"):
